@@ -153,3 +153,30 @@ def maxdev(a, b, scale=None):
         d = d / scale
     i = np.unravel_index(int(np.argmax(d)), d.shape)
     return float(d[i]), tuple(int(x) for x in i)
+
+
+POINT_FORMS = ("c-float64", "fortran-order", "strided-view", "integer-dtype", "float32-dtype", "c-float64")
+
+
+def present_points(pts, selector):
+    """The same evaluation points in one of the array forms callers use.  Returns (array to pass, float64 C-contiguous values it
+    denotes, label).  Memory layout never changes the values; for the integer and float32 forms the coordinates are first rounded
+    to values that the dtype represents exactly (integer grids are what the repository's own tests pass; float32 grids are
+    accepted and up-cast by the subtraction of the float64 centre), and the oracle must use the returned values."""
+    pts = np.ascontiguousarray(np.asarray(pts, dtype=float).reshape(-1, 3))
+    form = POINT_FORMS[int(selector) % len(POINT_FORMS)]
+    if form == "fortran-order":
+        return np.asfortranarray(pts), pts, form
+    if form == "strided-view":
+        wide = np.zeros((len(pts), 5))
+        wide[:, 1:4] = pts
+        return wide[:, 1:4], pts, form
+    if form == "integer-dtype":
+        if np.abs(pts).max(initial=0.0) > 1e6:
+            return pts, pts, "c-float64"
+        ip = np.rint(pts).astype(int)
+        return ip, np.ascontiguousarray(ip.astype(float)), form
+    if form == "float32-dtype":
+        fp = pts.astype(np.float32)
+        return fp, np.ascontiguousarray(fp.astype(float)), form
+    return pts, pts, "c-float64"
